@@ -366,7 +366,18 @@ impl<F: Write + Seek> Allocator<F> {
         debug_assert!(index <= self.fat.len());
         let fat_entries_per_sector =
             self.sectors.sector_len() / size_of::<u32>();
-        let fat_sector_id = self.difat[index / fat_entries_per_sector];
+        // A damaged file can have more sectors than its FAT sectors have
+        // entries for; such sectors cannot be allocated or freed.
+        let Some(&fat_sector_id) =
+            self.difat.get(index / fat_entries_per_sector)
+        else {
+            invalid_data!(
+                "FAT has only {} sectors, which cannot hold an entry for \
+                 sector {}",
+                self.difat.len(),
+                index
+            );
+        };
         let offset_within_sector = 4 * (index % fat_entries_per_sector) as u64;
         let mut sector = self
             .sectors
